@@ -40,6 +40,12 @@ CLAIMED = {
          "noise, non-canonical TRUE, decode from a non-canonical BER variant) x canonical syntax; the trace is accepted only if the structure "
          "compares equal and the encoder output equals that of the canonical structure (DER/UPER/OER: the reference octets).",
          "TLA+ abstract-value encoders + TLC-enumerated representation changes + trace validation"),
+ "C08": ("model_checking", "7 C08",
+         "Valid(T, v) in Asn1Types.tla is the set-theoretic meaning of the value, SIZE and alphabet constraints at every depth; Values.tla "
+         "derives from every valid value the values violating exactly one constraint at one position. TLC enumerates them; the driver builds each "
+         "structure directly (no codec) and calls asn_check_constraints with every interesting error-buffer size; the trace is accepted only if "
+         "the verdict equals Valid and the message is bounded, terminated and names a type.",
+         "TLA+ constraint semantics + TLC-enumerated single-constraint violations + trace validation"),
 }
 
 checks = []
